@@ -487,12 +487,13 @@ static void describe_packet (const char *tag, const struct sockaddr_in *from, co
 }
 
 /* ------------------------------------------------------------------ main loop under virtual time */
+static unsigned tick_cost_us = 20;
 static int iterate_ready (void)
 {
   int n = 0;
   /* every dispatching iteration costs a little (virtual) time, as it does on a real clock: without this
    * a timer re-armed with a sub-millisecond remainder (interval 0) would fire for ever at a frozen instant */
-  while (g_main_context_iteration (ctx, FALSE)) { n++; verif_now_us += 20; if (n > 100000) { printf ("ev spin-detected\n"); break; } }
+  while (g_main_context_iteration (ctx, FALSE)) { n++; verif_now_us += tick_cost_us; if (n > 20000) { if (tick_cost_us) printf ("ev spin-detected\n"); break; } }
   return n;
 }
 
@@ -847,6 +848,7 @@ int main (void)
         puts ("ok");
       }
       else if (!strcmp (w[1], "dropnext") && n == 3) { dropnext = atoi (w[2]); puts ("ok"); }
+      else if (!strcmp (w[1], "tickcost") && n == 3) { tick_cost_us = atoi (w[2]); puts ("ok"); }
       else if (!strcmp (w[1], "trace") && n == 3) { trace_packets = atoi (w[2]); puts ("ok"); }
       else if (!strcmp (w[1], "blackout") && n == 6 && n_blackouts < 32) {
         Blackout *b = &blackouts[n_blackouts++];
